@@ -23,6 +23,7 @@ type PropSpec struct {
 	Assumed   []string `json:"assumed"`    // clauses assumed
 	Undecided []string `json:"undecided"`  // clauses this family cannot decide
 	Standins  []Standin `json:"standins"`  // bounded stand-ins (thorough tier)
+	Filter    string   `json:"filter"`     // "locks": count only lock-discipline obligations of the units
 }
 
 type Standin struct {
@@ -176,6 +177,16 @@ func runCheck(args []string) int {
 	for _, r := range results {
 		if r.res.Script == nil {
 			continue
+		}
+		if spec.Filter == "locks" {
+			var keep []*Obligation
+			for _, o := range r.res.Script.obls {
+				if o.Kind == "lock" || (strings.HasPrefix(o.Kind, "pre@") && strings.HasPrefix(o.Label, "locks")) || (o.Cover && o.Label == "pre") ||
+					((o.Kind == "inv-init" || o.Kind == "inv-pres") && strings.Contains(o.Label, ":locks")) {
+					keep = append(keep, o)
+				}
+			}
+			r.res.Script.obls = keep
 		}
 		for _, o := range r.res.Script.obls {
 			for _, kf := range known {
